@@ -46,7 +46,8 @@ def _literal_bool(f, n):
 
 
 class Explorer:
-    def __init__(self, f, track_env=True, exempt_throw=True, enum_field=None, call_effect=None):
+    def __init__(self, f, track_env=True, exempt_throw=True, enum_field=None, call_effect=None,
+                 elem_effect=None, edge_effect=None):
         """enum_field: (field name, all enumerators): additionally track the set of
         possible values of this->field (branch tests ==/!= against enumerators,
         assignments of enumerators).  call_effect(node, env) -> env lets a rule
@@ -56,6 +57,8 @@ class Explorer:
         self.exempt_throw = exempt_throw
         self.enum_field = enum_field
         self.call_effect = call_effect
+        self.elem_effect = elem_effect      # (node, env) -> env, for every element
+        self.edge_effect = edge_effect      # (cond node, taken, env) -> env or None (prune)
         self.exit_id = f.cfg["exit"] if f.cfg else None
         self._multi_assigned = None
 
@@ -85,6 +88,8 @@ class Explorer:
     def _apply_elem_env(self, n, env):
         """Environment update for assignments / declarations of literal bools."""
         f = self.f
+        if self.elem_effect is not None:
+            env = self.elem_effect(n, env)
         if self.call_effect is not None and n["k"] in ("call", "mcall", "ocall", "construct"):
             env = self.call_effect(n, env)
         if self.enum_field is not None and n["k"] == "assign" and n.get("op") == "=":
@@ -236,6 +241,10 @@ class Explorer:
                             continue
                         env2 = dict(env2)
                         env2[name] = val
+                    if self.edge_effect is not None:
+                        env2 = self.edge_effect(tc, taken, env2)
+                        if env2 is None:
+                            continue
                     stack.append((s, 0, env2, step))
             else:
                 for s in succs:
